@@ -993,6 +993,31 @@ def _consume_by_slices(check, model, rule):
         seen.add(key)
         judged = True
         msgs = []
+        # what is recorded as consumed must be the names of exactly what is cut off: PO[:num_args] and POK[:max(0, num_args - len(PO))].
+        # An unclamped upper bound is negative when fewer arguments are passed than there are positional-only parameters, and a
+        # negative bound counts from the end: regular parameters that stay are then recorded as consumed (naming them raises
+        # "Duplicate argument", their provenance is dropped)
+        for e in p.effects:
+            if not (e.kind == 'mut' and e.op in ('update', 'add') and e.target[0] == 'SET'):
+                continue
+            for a_ in e.args:
+                for s_ in subterms(a_):
+                    if s_[0] == 'SL' and s_[1] == POK and s_[2] == NONE:
+                        hi = s_[3]
+                        clamped = hi[0] == 'C' and hi[1] == 'max' and K(0) in hi[2]
+                        guarded = False
+                        want_len = ('C', 'len', (PO,), ())
+                        for atom, pol in p.lits:
+                            if atom[0] == 'cmp' and set([atom[2], atom[3]]) == set([num, want_len]):
+                                if (atom[1] == '<=' and atom[2] == want_len and atom[3] == num and pol) or \
+                                        (atom[1] == '<' and atom[2] == num and atom[3] == want_len and not pol) or \
+                                        (atom[1] == '<' and atom[2] == want_len and atom[3] == num and pol):
+                                    guarded = True
+                        if not clamped and not guarded and hi[0] == 'B' and hi[1] == 'Sub':
+                            check.violation(rule, site(None, e.node), 'the names recorded as consumed are those of %s, whose upper bound is negative when fewer '
+                                            'arguments are passed than there are positional-only parameters: regular parameters that stay are recorded '
+                                            'as consumed' % show(s_)[:70], key=key + '|record',
+                                            witness="signature(partial(f, 1, c=3)) for def f(a, b, /, c, d) raises Duplicate argument: 'c'")
         if po[2] != num or po[3] != NONE:
             msgs.append('positional-only parameters are cut as %s, expected [num_args:]' % show(po)[:60])
         lo = pok[2]
